@@ -59,9 +59,30 @@ def _torch_dtype(dt):
     return {"fp32": torch.float32, "fp16": torch.float16, "bf16": torch.bfloat16}[dt]
 
 
-def _call_assign(cls, attr, gs, sizes):
-    d = cls.__new__(cls)
+PARAM_DTS = ("fp32", "bf16", "fp16", "f64")
+_STUB_BLOCKS = {}
+
+
+def _param_dtype(pd):
+    import torch
+    return {"fp32": torch.float32, "bf16": torch.bfloat16, "fp16": torch.float16, "f64": torch.float64}[pd]
+
+
+def stub_param_dt(sizes, gs):
+    """storage dtype of the (single) parameter block the stream-A stub carries: varies with the input so that every dtype
+    meets every group size and block count"""
+    return PARAM_DTS[(len(sizes) + gs) % 4]
+
+
+def _call_assign(cls, attr, gs, sizes, d=None):
+    import torch
+    if d is None:
+        d = cls.__new__(cls)
     setattr(d, attr, gs)
+    pd = stub_param_dt(sizes, gs)
+    if pd not in _STUB_BLOCKS:
+        _STUB_BLOCKS[pd] = (torch.zeros(1, dtype=_param_dtype(pd)),)
+    d._global_blocked_params = _STUB_BLOCKS[pd]      # the unchanged code does not read it here
     try:
         r = d._distribute_buffer_sizes(tuple(sizes))
         return tuple((int(a), int(b)) for a, b in r)
@@ -74,6 +95,18 @@ def _call_assign(cls, attr, gs, sizes):
 def impl_assign(chunk):
     cl = _classes()
     return [[_call_assign(*cl[c], gs, sizes) for c in COPIES] for sizes, gs in chunk]
+
+
+def impl_assign_history(chunk):
+    """chunk: list of call sequences [(sizes, gs), ...].  Every sequence is executed in order in this process, on one instance
+    per copy that is REUSED for all calls of the sequence (and the process has run other calls before): the result of a call
+    must not depend on the calls made earlier."""
+    cl = _classes()
+    res = []
+    for seq in chunk:
+        inst = {c: cl[c][0].__new__(cl[c][0]) for c in COPIES}
+        res.append([[_call_assign(*cl[c], gs, sizes, d=inst[c]) for c in COPIES] for sizes, gs in seq])
+    return res
 
 
 def _packable(o, n):
@@ -140,7 +173,16 @@ def _observe_buffers(d, dtype, me):
     return bool(ok), views, int(g.numel()), (int(lb.data_ptr() - base), int(lb.numel()))
 
 
-def _run_buffers(copy, numels, dt, gs, me):
+def _make_block(n, pd, noncontig):
+    """a block as multi_dim_split would hand it out: a view of a parameter (possibly a non-contiguous column slice)"""
+    import torch
+    shape = _shape_of(n)
+    if noncontig and len(shape) == 2:
+        return torch.zeros(shape[0], 2 * shape[1], dtype=_param_dtype(pd))[:, :shape[1]]
+    return torch.zeros(n, dtype=_param_dtype(pd)).view(shape)
+
+
+def _run_buffers(copy, numels, dt, gs, me, pd="fp32", noncontig=False):
     import torch
     from distributed_shampoo.utils.shampoo_utils import get_dtype_size
     cls, attr = _classes()[copy]
@@ -148,7 +190,7 @@ def _run_buffers(copy, numels, dt, gs, me):
     d = cls.__new__(cls)
     setattr(d, attr, gs)
     try:
-        d._global_blocked_params = tuple(torch.zeros(n).view(_shape_of(n)) for n in numels)
+        d._global_blocked_params = tuple(_make_block(n, pd, noncontig) for n in numels)
         bsr = d._distribute_buffer_sizes(tuple(b.numel() * get_dtype_size(dtype) for b in d._global_blocked_params))
         d._distributor_selector = tuple(r == me for _, r in bsr)
         kw = {"group_rank": me} if copy == "ddp" else {"comms_group_rank": me}
@@ -160,7 +202,7 @@ def _run_buffers(copy, numels, dt, gs, me):
 
 
 def impl_buffers(chunk):
-    return [[_run_buffers(c, numels, dt, gs, me) for c in COPIES] for numels, dt, gs, me in chunk]
+    return [[_run_buffers(c, numels, dt, gs, me, pd, nc) for c in COPIES] for numels, dt, gs, me, pd, nc in chunk]
 
 
 # ---- stream C: sequential stand-ins for the names of DESIGN Appendix B.2 ----
@@ -276,6 +318,8 @@ def _run_cluster(job):
         world, L = R, list(range(R))
     else:
         world, L = R * S, [r * S + s0 for r in range(R)]
+    ntpg = -1 if job.get("ntpg_default") else gs       # -1: "use the whole replication group" (only generated when R == gs)
+    cp = bool(job.get("communicate_params"))
     sim = _Sim(world)
     user_mesh = _FakeMesh(sim, "cpu", [[r * S + s for s in range(S)] for r in range(R)], ("replicate", "shard"))
     out = []
@@ -288,16 +332,16 @@ def _run_cluster(job):
                 if copy == "hsdp":
                     params, meta = [], {}
                     for k, (shape, (a, b)) in enumerate(job["shapes"]):
-                        t = torch.zeros(b - a)
+                        t = torch.zeros(b - a, dtype=_param_dtype(job.get("pd", "fp32")))
                         params.append(t)
                         from torch.distributed.fsdp import ShardingStrategy
                         meta[t] = FSDPParameterMetadata(fqn=f"p{k}", shape=torch.Size(shape), numel=math.prod(shape), start_idx=a, end_idx=b,
                                                         sharding_strategy=ShardingStrategy.HYBRID_SHARD)
-                    cfg = HSDPShampooConfig(param_to_metadata=meta, device_mesh=user_mesh, communication_dtype=cdt, num_trainers_per_group=gs)
+                    cfg = HSDPShampooConfig(param_to_metadata=meta, device_mesh=user_mesh, communication_dtype=cdt, num_trainers_per_group=ntpg, communicate_params=cp)
                 else:
-                    params = [torch.zeros(shape) for shape, _ in job["shapes"]]
-                    cfg = (DDPShampooConfig(communication_dtype=cdt, num_trainers_per_group=gs) if copy == "ddp"
-                           else HybridShardShampooConfig(device_mesh=user_mesh, communication_dtype=cdt, num_trainers_per_group=gs))
+                    params = [torch.zeros(shape, dtype=_param_dtype(job.get("pd", "fp32"))) for shape, _ in job["shapes"]]
+                    cfg = (DDPShampooConfig(communication_dtype=cdt, num_trainers_per_group=ntpg, communicate_params=cp) if copy == "ddp"
+                           else HybridShardShampooConfig(device_mesh=user_mesh, communication_dtype=cdt, num_trainers_per_group=ntpg, communicate_params=cp))
                 group = {PARAMS: params, MAX_PRECONDITIONER_DIM: job["mpd"], USE_MERGE_DIMS: job["merge"]}
                 d = cls(group, cfg)
                 me_attr = p % gs
@@ -471,8 +515,35 @@ def gen_assign_blocks(thorough: bool):
     return blocks
 
 
+GiB = 2 ** 30
+# input classes the quantifier names or plainly allows and that random/exhaustive small lists do not reach (quantifier audit)
+TARGETED = [
+    # one padded block next to many tiny ones (padding dominates the load), group sizes 2..16
+    *[((64,) + (4,) * 16, g) for g in (2, 3, 8, 16)], *[((512, 512) + (8, 12, 20) * 8, g) for g in (2, 4, 5)],
+    # one dominant block plus small ones / ragged edges (the head of a FIFO of ranks is not the least loaded)
+    *[((640,) + (64,) * 10, g) for g in (2, 3, 4)], ((100, 100, 4, 65536, 65536, 4, 1024, 4096, 4, 65536, 100), 6), ((128, 64, 500, 256), 1), ((128, 64, 500, 256), 2),
+    # per-rank loads of 2 GiB and more (byte counts only, nothing is allocated): 32-bit and 63-bit boundaries
+    ((GiB,) * 6, 2), ((256 * 2 ** 20,) * 40, 4), ((2 ** 31 - 1, 2 ** 31 - 64, 2 ** 31, 2 ** 31 + 1, 1), 2), ((2 ** 32, 2 ** 32 - 63, 7, 2 ** 32 + 65), 3),
+    ((128 * 2 ** 20,) * 130, 8), ((2 ** 40 + 1, 2 ** 40, 2 ** 33, 5), 2), ((2 ** 62 + 3, 2 ** 62, 2 ** 61), 2), ((2 ** 63, 2 ** 63 - 1, 2 ** 64 + 64), 3),
+    # boundaries of the group-size range with few / equal / single blocks
+    ((1,), 1), ((1,), 16), ((64,) * 16, 16), ((64,) * 17, 16), ((65,) * 15, 16), ((63, 64, 65), 16), ((0,), 16), ((0, 0, 0), 2), ((), 1), ((), 16),
+    # every residue class of the size modulo 64 around one and two lines
+    (tuple(range(1, 65)), 3), (tuple(range(65, 129)), 5), (tuple(range(128, 63, -1)), 7),
+]
+
+# call sequences run on ONE instance per copy, in one process: a call must not see the loads left by an earlier call
+HISTORIES = [
+    [((1024, 64), 2), ((256,) * 6, 2), ((256,) * 6, 2)],
+    [((64,), 2), ((64,), 2), ((64,), 2), ((64, 64), 2)],
+    [((500, 4, 4), 3), ((4,) * 9, 3), ((500, 4, 4), 3)],
+    [((130,), 1), ((130, 1), 1), ((1,), 1)],
+    [((4096,) + (64,) * 3, 4), ((), 4), ((64,) * 8, 4), ((64,) * 8, 16), ((64,) * 8, 4)],
+    [((GiB,) * 3, 2), ((64, 64), 2)],
+]
+
+
 def gen_assign_random(ck: Check, thorough: bool):
-    inputs = [((), 0), ((64,), 0), ((1, 2), 0)] + list(TIGHT)      # group size 0: heappop on an empty heap
+    inputs = [((), 0), ((64,), 0), ((1, 2), 0)] + list(TIGHT) + list(TARGETED)      # group size 0: heappop on an empty heap
     nrand = 12000 if thorough else 500
     maxn, maxg = (256, 32) if thorough else (64, 16)
     for _ in range(nrand):
@@ -501,9 +572,24 @@ def gen_buffer_inputs(ck: Check, thorough: bool):
         for numels in itertools.product(N6, repeat=n):
             for gs in (1, 2, 3, 4):
                 for dt in dts:
-                    inputs.append((numels, dt, gs, k % gs))
+                    inputs.append((numels, dt, gs, k % gs, "fp32", False))
                     k += 1
     nexh = len(inputs)
+    # quantifier audit: parameter blocks stored in another dtype than fp32 and handed out as non-contiguous views; sizes in
+    # every communication dtype around 1..32 / 33..63 modulo 64 (6 -> 24 B / 12 B, 21 -> 84 B / 42 B, 17 -> 68 B / 34 B)
+    for pd in ("bf16", "fp16", "f64"):
+        for n in (1, 2):
+            for numels in itertools.product((1, 6, 16, 17, 21, 32), repeat=n):
+                for gs in (1, 2):
+                    for dt in ("fp32", "fp16", "bf16"):
+                        inputs.append((numels, dt, gs, k % gs, pd, k % 3 == 0))
+                        k += 1
+    for gs, me in ((16, 15), (16, 0), (8, 7), (5, 4), (1, 0)):      # group-size range boundaries, last rank, ranks without block
+        for numels in ((6,), (21, 6, 6), (16,) * 16, (17,) * 17, (1, 2, 3, 4, 5, 6, 7, 8, 9, 10, 11, 12, 13, 14, 15, 16, 17, 18, 19, 20)):
+            for dt in ("fp32", "bf16"):
+                inputs.append((numels, dt, gs, me, PARAM_DTS[k % 4], k % 2 == 0))
+                k += 1
+    ntarget = len(inputs) - nexh
     nrand = 3000 if thorough else 250
     maxn, maxg = (128, 32) if thorough else (64, 16)
     for _ in range(nrand):
@@ -514,7 +600,7 @@ def gen_buffer_inputs(ck: Check, thorough: bool):
             numels = tuple(ck.rng.choice((1, 8, 16, 17, 24, 32, 33, 64, 96, 100, 256)) for _ in range(n))
         else:
             numels = tuple(ck.rng.randint(1, 2000) for _ in range(n))
-        inputs.append((numels, dt, gs, ck.rng.randrange(gs)))
+        inputs.append((numels, dt, gs, ck.rng.randrange(gs), ck.rng.choice(PARAM_DTS), ck.rng.random() < 0.3))
     return inputs, nexh
 
 
@@ -550,11 +636,32 @@ def gen_cluster_jobs(ck: Check, thorough: bool):
             if copy == "hybrid" and all(math.prod(s) == 0 for s, _ in shapes):
                 shapes[0] = ((2, 3), None)
             jobs.append({"copy": copy, "gs": gs, "R": R, "S": S, "s0": ck.rng.randrange(S), "dt": ck.rng.choice(("fp32", "fp16", "bf16")),
-                         "default_dtype": False, "mpd": mpd, "merge": ck.rng.random() < 0.5, "shapes": shapes})
+                         "default_dtype": False, "mpd": mpd, "merge": ck.rng.random() < 0.5, "shapes": shapes,
+                         "pd": PARAM_DTS[k % 4], "ntpg_default": ngroups == 1 and k % 3 == 0, "communicate_params": k % 5 == 0})
+        # quantifier audit: upper part of the group-size range (8, 16), and a SECOND distributor with the same group size built
+        # right after the first one in the same process (a second parameter group / optimizer): jobs are run two per worker call
+        for gs, pd, dt in ((16, "bf16", "fp32"), (8, "fp16", "bf16")):
+            for twin in (False, True):
+                shapes = _targeted_shapes(copy, twin)
+                jobs.append({"copy": copy, "gs": gs, "R": gs, "S": 1, "s0": 0, "dt": dt, "default_dtype": False, "mpd": 3, "merge": False, "shapes": shapes,
+                             "pd": pd, "ntpg_default": twin, "communicate_params": False, "twin_of_previous": twin})
+        for gs, pd in ((2, "bf16"), (2, "f64"), (1, "fp16"), (3, "bf16")):
+            for twin in (False, True):
+                jobs.append({"copy": copy, "gs": gs, "R": gs * 2, "S": 1 if copy == "ddp" else 2, "s0": 0, "dt": "fp32", "default_dtype": True, "mpd": 4, "merge": True,
+                             "shapes": _targeted_shapes(copy, not twin), "pd": pd, "ntpg_default": False, "communicate_params": twin, "twin_of_previous": twin})
     for j in jobs[::7]:
         if j["dt"] == "fp32":
             j["default_dtype"] = True
+    assert len(jobs) % 2 == 0
     return jobs
+
+
+def _targeted_shapes(copy, variant):
+    """a dominant parameter and small ones whose blocks (mpd 3 or 4) have byte sizes that are not multiples of 64"""
+    base = [((7, 3), None), ((11,), None), ((3, 2), None), ((5, 5), None)] if not variant else [((2,), None), ((9, 4), None), ((1,), None), ((6, 7), None), ((3,), None)]
+    if copy == "hsdp":
+        return [(sh, (1 if i % 2 else 0, math.prod(sh) - (1 if i == 1 else 0))) for i, (sh, _) in enumerate(base)]
+    return base
 
 
 # --------------------------------------------------------------------------------------
@@ -591,10 +698,12 @@ def run(ck: Check) -> None:
     with mp.get_context("fork").Pool(16) as pool:
         rk = pool.map_async(impl_assign_blocks, list(common.chunks(a_blocks, 8)))
         ra = pool.map_async(impl_assign, list(common.chunks(a_rand, 100)))
+        rh = pool.map_async(impl_assign_history, [HISTORIES])
         rb = pool.map_async(impl_buffers, list(common.chunks(b_inputs, 40)))
         rc = pool.map_async(impl_cluster, list(common.chunks(c_jobs, 2)))
         k_out = [x for ch in rk.get() for x in ch]
         a_out = [x for ch in ra.get() for x in ch]
+        h_out = [x for ch in rh.get() for x in ch]
         b_out = [x for ch in rb.get() for x in ch]
         c_out = [x for ch in rc.get() for x in ch]
     t_impl = time.time() - t0 - t_props
@@ -641,6 +750,12 @@ def run(ck: Check) -> None:
     for (sizes, gs), per in zip(a_rand, a_out):
         for c, o in zip(COPIES, per):
             a_cases.setdefault((sizes, gs, o), []).append(c)
+    n_hist_calls = 0
+    for seq, outs in zip(HISTORIES, h_out):        # every call of a history is compared with the (history-free) model on its own
+        for (sizes, gs), per in zip(seq, outs):
+            n_hist_calls += 1
+            for c, o in zip(COPIES, per):
+                a_cases.setdefault((sizes, gs, o), []).append(c + ":history")
     a_keys = list(a_cases)
 
     def a_item(key, packed_fn, case_fn):
@@ -661,14 +776,14 @@ def run(ck: Check) -> None:
 
     # ---------------- stream B ----------------
     b_cases = {}      # (numels, dt, gs, me, frozen result) -> copies
-    for (numels, dt, gs, me), per in zip(b_inputs, b_out):
+    for (numels, dt, gs, me, pd, nc), per in zip(b_inputs, b_out):
         for c, r in zip(COPIES, per):
             fr = ("exc", r["exc"]) if "exc" in r else (r["ok"], tuple(r["bsr"]), tuple(r["views"]), r["total"], r["local"])
-            b_cases.setdefault((numels, dt, gs, me, fr), []).append(c)
+            b_cases.setdefault((numels, dt, gs, me, fr, pd, nc), []).append(c)
     b_keys = list(b_cases)
 
     def b_item(key):
-        numels, dt, gs, me, fr = key
+        numels, dt, gs, me, fr, pd, nc = key
         if fr[0] == "exc":
             return "false"
         ok, bsr, views, total, local = fr
@@ -733,7 +848,7 @@ def run(ck: Check) -> None:
                       no_failing_input=True)
     if b_bad:
         def b_chk(key):
-            numels, dt, gs, me, fr = key
+            numels, dt, gs, me, fr, pd, nc = key
             if fr[0] == "exc":
                 return "false"
             ok, bsr, views, total, local = fr
@@ -745,17 +860,17 @@ def run(ck: Check) -> None:
         failing = [k for k, b in zip(b_keys, flatb) if b != "T"]
         if failing:
             failing.sort(key=lambda x: (len(x[0]), x[2], sum(x[0]), x[0]))
-            numels, dt, gs, me, fr = failing[0]
+            numels, dt, gs, me, fr, pd, nc = failing[0]
             copies = b_cases[failing[0]]
-            ck.report(None, f"buffer layout of the {'/'.join(copies)} copy violates C14 on numels={list(numels)} dtype={dt} group_size={gs} rank={me}: {fr}; {len(failing)} failing inputs",
-                      {"kind": "buffers-property-fails", "copy": copies[0], "copies": copies, "numels": list(numels), "dt": dt, "gs": gs, "me": me, "impl": fr, "n_failing": len(failing),
+            ck.report(None, f"buffer layout of the {'/'.join(copies)} copy violates C14 on numels={list(numels)} dtype={dt} group_size={gs} rank={me} (parameter dtype {pd}, non-contiguous blocks {nc}): {fr}; {len(failing)} failing inputs",
+                      {"kind": "buffers-property-fails", "copy": copies[0], "copies": copies, "numels": list(numels), "dt": dt, "gs": gs, "me": me, "pd": pd, "nc": nc, "impl": fr, "n_failing": len(failing),
                        "predicate": "C14_checkbZ (views in owner segment, >= block bytes, 64-aligned, pairwise disjoint) and aliasing flags"})
         else:
-            numels, dt, gs, me, fr = b_bad[0]
+            numels, dt, gs, me, fr, pd, nc = b_bad[0]
             copies = b_cases[b_bad[0]]
             ck.report(None, f"model/implementation correspondence broken for _construct_distributed_buffers ({len(b_bad)} cases, first: {'/'.join(copies)} numels={list(numels)} {dt} gs={gs} me={me}) "
                             "but every layout still passes C14_checkb",
-                      {"kind": "correspondence", "broken": "Assign.agree_buffers", "copy": copies[0], "copies": copies, "numels": list(numels), "dt": dt, "gs": gs, "me": me, "impl": fr,
+                      {"kind": "correspondence", "broken": "Assign.agree_buffers", "copy": copies[0], "copies": copies, "numels": list(numels), "dt": dt, "gs": gs, "me": me, "pd": pd, "nc": nc, "impl": fr,
                        "theorems_not_transferring": ["C14_buffers_in_owner_segment", "C14_buffers_ge_block_bytes", "C14_buffers_disjoint_aligned"]}, no_failing_input=True)
     if c_bad:
         # property predicate on the observed cluster: selectors of each group partition the blocks, every local block is
@@ -909,7 +1024,7 @@ def replay(obj) -> bool:
         return True
     if "numels" in obj:
         for c in obj.get("copies") or [obj["copy"]]:
-            print(c, "buffers ->", _run_buffers(c, obj["numels"], obj["dt"], obj["gs"], obj["me"]), "recorded", obj.get("impl"))
+            print(c, "buffers ->", _run_buffers(c, obj["numels"], obj["dt"], obj["gs"], obj["me"], obj.get("pd", "fp32"), bool(obj.get("nc"))), "recorded", obj.get("impl"))
         return True
     if "job" in obj:
         j = obj["job"]
